@@ -46,6 +46,45 @@ def scenario(rng, idx):
     return {"search": s, "replace": r, "tree": tree, "src": src, "dst": dst, "occupant": occ, "kind": kind}
 
 
+CASE_OCCUPANTS = ["file", "symlink_to_source", "symlink", "emptydir", "dir", "none"]
+
+
+def caseonly_scenario(rng, idx):
+    """the planned destination differs from the source ONLY by letter case (FooBar -> Foobar) and is occupied —
+    in particular by a symlink that points at the source, which resolves to the same file as the source without
+    being the same directory entry"""
+    w = rng.sample(gen.VOCAB, 2)
+    style = rng.choice(["pascal", "camel"])
+    s, r = gen.render(style, w), gen.render(style, [w[0] + w[1]])
+    kind = rng.choice(["file", "file", "dir"])
+    occ = CASE_OCCUPANTS[idx % len(CASE_OCCUPANTS)]
+    sub = rng.choice(["", "pkg/"])
+    tree = {}
+    if sub:
+        tree["pkg"] = ("d", 0o755)
+    ext = rng.choice([".txt", ".rs", ""]) if kind == "file" else ""
+    src, dst = sub + s + ext, sub + r + ext
+    if kind == "file":
+        tree[src] = ("f", b"source without the term\n", 0o644)
+    else:
+        tree[src] = ("d", 0o755)
+        tree[src + "/inner.txt"] = ("f", b"inner of source\n", 0o644)
+    if occ == "file":
+        tree[dst] = ("f", b"precious occupant\n", 0o600)
+    elif occ == "emptydir":
+        tree[dst] = ("d", 0o755)
+    elif occ == "dir":
+        tree[dst] = ("d", 0o755)
+        tree[dst + "/keep.txt"] = ("f", b"kept\n", 0o644)
+    elif occ == "symlink":
+        tree[dst] = ("l", "somewhere")
+    elif occ == "symlink_to_source":
+        tree[dst] = ("l", s + ext)
+    tree[sub + "unrelated.md"] = ("f", b"nothing here\n", 0o644)
+    return {"search": s, "replace": r, "tree": tree, "src": src, "dst": dst, "occupant": "caseonly_" + occ if occ != "none" else "none",
+            "kind": kind}
+
+
 def chain_scenario(rng, length=None):
     """replacement contains the search term (foo -> foo_bar): every planned destination but the last is another
     planned source; chains of 2..4 links"""
@@ -114,7 +153,7 @@ def run_cli(ctx, sc):
         moved = {a for a, _ in res["renames"]}
         if sc["dst"] not in moved:
             occ_untouched = before.get(sc["dst"]) == after.get(sc["dst"])
-            if sc["occupant"] == "dir":
+            if sc["occupant"] in ("dir", "caseonly_dir"):
                 occ_untouched = occ_untouched and before.get(sc["dst"] + "/keep.txt") == after.get(sc["dst"] + "/keep.txt")
     res["occupant_untouched"] = occ_untouched
     res["unchanged"] = before == after
@@ -137,7 +176,9 @@ def classify(sc, res):
 
 def run(ctx):
     ctx.cov["rule"] = ("scenarios: planned rename destination occupied by file / empty dir / non-empty dir / symlink / nothing, "
-                       "source file or directory, at root or nested, 4 styles, plus chains (replacement contains the term); "
+                       "source file or directory, at root or nested, 4 styles, plus chains (replacement contains the term), plus "
+                       "destinations that differ from the source only by letter case and are occupied by a file / directory / "
+                       "symlink elsewhere / symlink to the source itself; "
                        "each run through the CLI (plan + apply) and through applytree (model correspondence). "
                        "non-trivial = destination occupied or chain; distinct = (terms, shape)")
     ctx.assumptions += ["POSIX rename(2) semantics as in RModel.Model.Fs", "case-insensitive filesystems not modelled"]
@@ -148,7 +189,8 @@ def run(ctx):
         return
     rng = ctx.rng
     n = 200 if ctx.thorough else 50
-    scs = [scenario(rng, i) for i in range(n)] + [chain_scenario(rng) for _ in range(n // 5)]
+    scs = ([scenario(rng, i) for i in range(n)] + [chain_scenario(rng) for _ in range(n // 5)]
+           + [caseonly_scenario(rng, i) for i in range(n // 2)])
 
     # correspondence: a by-construction plan (rename src -> dst) through applytree
     reqs = []
